@@ -230,6 +230,31 @@ theorem C23_contains_follows_source (db : Db) (s : Sess) (o : Oid) (c : Attr) (i
 theorem C23_batch_merge_follows_source :
     LoadDecisions.phantomUsesOwnAdded = true ∧ LoadDecisions.mergeSkipsKnownAndRemoved = true ∧ LoadDecisions.batchMarksFull = true := by decide
 
+/-! ### in-place changes of loaded container values -/
+
+/-- the binding of each loading path as it is in the source -/
+def boundNow : LoadPath → Bool
+  | .eagerRow => LoadDecisions.rowSetBindsObj
+  | .lazyAccess => LoadDecisions.dbSetBindsObj
+
+/-- when every loading path binds the loaded value to its object, what a program reads after an in-place change and what the commit
+    writes do not depend on HOW the value was loaded (eager row, prefetch, query naming the attribute, lazy access): for every content, every change -/
+theorem C23_inplace_change_independent_of_loading (boundOn : LoadPath → Bool) (hb : ∀ p, boundOn p = true) (p p' : LoadPath)
+    (dbContent : List Int) (f : List Int → List Int) :
+    mutate (loadVia boundOn p dbContent) f = mutate (loadVia boundOn p' dbContent) f ∧
+    committed dbContent (mutate (loadVia boundOn p dbContent) f) = f dbContent := by
+  simp [mutate, loadVia, committed, hb]
+
+/-- a path that forgets the object is observable: the value read in the session is the changed one, the commit writes nothing -/
+theorem C23_unbound_load_loses_change :
+    ∃ (boundOn : LoadPath → Bool) (c : List Int) (f : List Int → List Int),
+      committed c (mutate (loadVia boundOn .lazyAccess c) f) ≠ committed c (mutate (loadVia boundOn .eagerRow c) f) :=
+  ⟨fun p => p != .lazyAccess, [1], fun l => 2 :: l, by decide⟩
+
+/-- the code as it is binds on both paths (`dbval2val(dbval, obj)` in `Attribute.db_set` and `Entity._db_set_`; regenerated) -/
+theorem C23_loaded_values_bound : ∀ p, boundNow p = true := by
+  intro p; cases p <;> decide
+
 /-! ### batch loading into collections with pending changes -/
 
 /-- a session's partial knowledge of a collection with pending changes is consistent with the link rows: every known item is a row or
